@@ -20,6 +20,15 @@ CLAIMED = {
         design_ref="DESIGN.md section 5, C14",
         technique="Coq proof (induction over the table fold + reflection on the regenerated table) with exhaustive model/implementation correspondence under vm_compute",
         note=NOTE_COMMON + " Table translator tools/gen_tables.py (fail-closed)."),
+    "C10": dict(
+        text="Theorems (all structures, all NoDup index lists): per-atom arrays after deletion are the originals read at the surviving indices in "
+             "increasing order; a term survives iff none of its atoms is deleted, keeping order, type and extra fields, with indices renamed by "
+             "ren; ren maps each surviving atom to its new position (same physical atom); the result is independent of the listing order; pop = "
+             "delete of the selected index. The literal descending re-index loop is what is modelled (ascending mutant refuted by a witness). "
+             "Model tied to the code by exhaustive enumeration of every non-empty subset in two listing orders on small structures.",
+        design_ref="DESIGN.md section 5, C10",
+        technique="Coq proof (induction; literal re-index loop = rename by count of smaller deleted indices) with exhaustive model/implementation correspondence under vm_compute",
+        note=NOTE_COMMON),
 }
 
 PENDING_REASON = "no check registered yet: the Coq model and correspondence for this property are still being built (see DESIGN.md section 7 work order); nothing is claimed"
